@@ -486,12 +486,18 @@ def _job(k, cases):
   w = None
   try:
     for c in cases:
-      try:
-        if w is None or not w.alive():
-          w = Worker(k)
-        obs = w.ask(c)
-      except Exception as ex:  # pylint: disable=broad-except
-        obs = {'worker_error': f'{type(ex).__name__}: {ex}'}
+      obs = None
+      for attempt in (0, 1):      # a worker process that dies (not a hang) is restarted once: a crash that does not
+        try:                      # reproduce on a fresh process is an environment event, one that does is reported
+          if w is None or not w.alive():
+            w = Worker(k)
+          obs = w.ask(c)
+        except Exception as ex:  # pylint: disable=broad-except
+          obs = {'worker_error': f'{type(ex).__name__}: {ex}'}
+        if 'worker_error' not in obs:
+          break
+        w.kill()
+        w = None
       ev, box = _RESULTS[_key(c)]
       box.append(obs)
       ev.set()
@@ -533,10 +539,14 @@ def run(case):
     ev.wait()
     obs = box[0]
   else:
-    w = _ONDEMAND.get(_wkey(case))
-    if w is None or not w.alive():
-      w = _ONDEMAND[_wkey(case)] = Worker(_wkey(case))
-    obs = w.ask(case)
+    for attempt in (0, 1):
+      w = _ONDEMAND.get(_wkey(case))
+      if w is None or not w.alive():
+        w = _ONDEMAND[_wkey(case)] = Worker(_wkey(case))
+      obs = w.ask(case)
+      if 'worker_error' not in obs:
+        break
+      w.kill()
   if obs.get('hang'):
     raise fw.Hang()
   if 'worker_error' in obs:
